@@ -75,9 +75,9 @@ META = {
     ],
     "partial": [
         "parse_total / success_valid are proved for the modelled parsers only (numeric primitives; ISO date, ISO times, ISO date-times incl. 24:00 roll-over, offset g/G), which model the REPAIRED behaviour (year range check in the ISO fast path, Offset range check, OverflowError of plus_days mapped to a failure, end-of-text by index); on the unrepaired tree the correspondence suite text.iso.parse and the direct oracles report the four defects",
-        "pattern creation: compile_total is proved for LocalTime, LocalDate (ISO template) and Offset patterns (custom texts, standard letters, Z prefix, composites), tied to the real builders by suite text.pat.compile (outcome class, used-field mask, number of actions); LocalDateTime/Instant (embedded patterns), Duration and AnnualDate creation and the sample formatting done at construction are covered by the malformed-pattern oracle only",
-        "generic engine (tied to the code by suites text.pat.compile/fmt/parse): parse_total and success_value_valid hold for EVERY accepted LocalTime and Offset pattern text in every culture record (time_parse_total, offset_parse_total, time_success_valid, offset_success_valid); for LocalDate (ISO template) parse_total holds for every pattern without era/calendar fields (date_parse_total), success_value_valid only for the ISO fast path (iso_date_success_valid)",
-        "NOT covered by theorems: era and calendar fields, non-ISO calendars, LocalDateTime/Instant (embedded patterns, 24:00 outside the ISO patterns), Duration and AnnualDate parsers, str.lower() beyond ASCII, ICU culture data extraction; exceptions originating in ICU or in culture construction are outside the model",
+        "pattern creation: compile_total is proved for LocalTime, LocalDate (ISO template), Offset and LocalDateTime (ISO template value) patterns (custom texts, standard letters, Z prefix, composites), tied to the real builders by suite text.pat.compile (outcome class, used-field mask, number of actions); for LocalDateTime the theorem assumes a pattern text (and culture date/time pattern texts, hypothesis dtTextsNoL evaluated per run) without the letter 'l': embedded patterns ld<...>/lt<...> are outside the model (!dom); Instant, Duration and AnnualDate creation and the sample formatting done at construction are covered by the malformed-pattern oracle only",
+        "generic engine (tied to the code by suites text.pat.compile/fmt/parse): parse_total and success_value_valid hold for EVERY accepted LocalTime and Offset pattern text in every culture record (time_parse_total, offset_parse_total, time_success_valid, offset_success_valid); success_value_valid holds for EVERY accepted LocalDate pattern text (default template) and LocalDateTime pattern text (any valid ISO template value; 24:00 roll-over included) in every culture record whose month-name tables start with the empty entry of index 0 (date_success_valid, datetime_success_valid; hypothesis monthHeadsEmpty evaluated per run on the sampled cultures, failing cultures listed in the notes); parse_total for LocalDate/LocalDateTime holds for every compiled pattern without the calendar field (date_parse_total, datetime_parse_total: era, month/day names and am/pm included)",
+        "NOT covered by theorems: the calendar field on texts naming a calendar other than ISO, non-ISO calendars and template values, embedded patterns, Instant (adapter over LocalDateTime), Duration and AnnualDate parsers, str.lower() beyond ASCII, ICU culture data extraction; exceptions originating in ICU or in culture construction are outside the model",
     ],
     "rule": "distinct = distinct (pattern, culture, text) triple / pattern text; non-trivial = the pattern exists and parse was invoked (creation stream: creation was attempted)",
 }
